@@ -2,7 +2,7 @@
 
 A changed fingerprint is NOT an alarm: it switches that property's correspondence and
 evaluators to a larger budget even in the quick tier and is recorded in the evidence
-(`anchors_changed`).  `python3 harness/anchors.py --write` refreshes model_anchors.json
+(`anchors_changed`).  `/venv/bin/python harness/anchors.py --write` refreshes model_anchors.json
 (main session only, after the models were re-validated against the new code)."""
 import ast
 import hashlib
@@ -83,6 +83,10 @@ def changed(repo, prop):
 
 
 if __name__ == "__main__":
+    # ast.dump differs between Python versions: always fingerprint with the interpreter ./check runs under
+    if os.path.exists("/venv/bin/python") and os.path.realpath(sys.executable) != os.path.realpath("/venv/bin/python") and not os.environ.get("_ANCHORS_REEXEC"):
+        os.environ["_ANCHORS_REEXEC"] = "1"
+        os.execv("/venv/bin/python", ["/venv/bin/python"] + sys.argv)
     repo = os.environ.get("VERIF_REPO", "/repo")
     data = {p: fingerprint(repo, p) for p in sorted(ANCHORS)}
     if "--write" in sys.argv:
